@@ -1,13 +1,10 @@
-import PCV.Engine
-import PCV.Engines.Escape
+import PCV.Registry
 open PCV
 
 def chomp (s : String) : String :=
   String.ofList (s.toList.reverse.dropWhile (fun c => c == '\n' || c == '\r')).reverse
 
-def engines : List (String × Engine) := [
-  ("escape", Engines.escape)
-]
+def engines : List (String × Engine) := PCV.engineTable
 
 partial def loopModel (e : Engine) (h : IO.FS.Stream) (out : IO.FS.Stream) (s : e.σ) : IO Unit := do
   let line ← h.getLine
